@@ -137,7 +137,8 @@ Lemma split_runs maxe : (1 <= maxe)%N -> forall items cur ck cnt,
   (forall tail, runs_okb maxe None 0%N (rev cur ++ tail) = runs_okb maxe ck cnt tail) ->
   forall seg, In seg (split_files maxe cur ck cnt items) -> runs_okb maxe None 0%N seg = true.
 Proof.
-  intros Hm. induction items as [|[k b] r IH]; intros cur ck cnt Hc Hinv seg Hin; cbn [split_files] in Hin.
+  intros Hm. induction items as [|[k b] r IH]; intros cur ck cnt Hc Hinv seg Hin; cbn [split_files] in Hin;
+    rewrite <- ?rev_alt in Hin.
   - destruct cur as [|c0 cur']; [destruct Hin|]. destruct Hin as [<-|[]].
     pose proof (Hinv []) as H0. rewrite app_nil_r in H0. etransitivity; [exact H0|reflexivity].
   - set (cnt' := match ck with
